@@ -59,6 +59,13 @@ CHECKS = {
                 note="Brackets use fastant::Instant (the library's clock); wall-clock window +-50ms."),
 }
 
+CHECKS["C19"] = dict(engine="reporters", technique=PBT + "generated SpanRecord batches through the real reporters to loopback sockets / a capturing exporter, decoded by hand-written Thrift-compact and msgpack decoders; oracle: well-formedness (complete parse, no trailing bytes) and record-by-record faithfulness per target format",
+    text="Exploration: 1.8k Jaeger batches, 2k OpenTelemetry batches, 360 Datadog batches (one HTTP request each) per quick run, 0-400 records each.",
+    note="Decoders are written from the wire-format specifications and jaeger.thrift / the v0.4 key set; a real agent's acceptance is not tested. A kernel-side datagram drop makes a case inconclusive, never a violation.")
+CHECKS["C20"] = dict(engine="reporters(+libFuzzer)", technique=PBT + "generated size plans (tiny/medium/near-limit/oversize spans, totals straddling 8000 bytes) realised with an independent reference Thrift encoder + libFuzzer target decoding bytes into size plans; oracle: every datagram < 8000 bytes, transmitted spans == exactly the records that fit alone, once and in order, call terminates",
+    text="Exploration: 4.2k batches per quick run; thorough adds 112k batches and a 5 min libFuzzer campaign through the real UDP path.",
+    note="The reference encoder is validated against the real single-span datagrams on every single-record case; sizes within +-10 bytes of the limit are undecided.")
+
 NOT_YET = "check not built yet (work in progress; see DESIGN.md section 4 for the planned check)"
 
 
@@ -92,6 +99,7 @@ def main():
         "engines": [
             {"name": "core", "path": "/verif/engines/core", "serves_properties": [p for p in ALL if p in CHECKS and CHECKS[p]["engine"].startswith("core")],
              "kind_free_text": "proptest-driven interpreter of generated tracing programs with a lockstep reference model; built plain (public API, real flush()), hooked (--cfg fastrace_verif: baton scheduler over hook sites) and without the enable feature"},
+            {"name": "reporters", "path": "/verif/engines/reporters", "serves_properties": ["C19", "C20"], "kind_free_text": "proptest worker + cargo-fuzz target /verif/fuzz/fuzz_targets/c20_plan.rs; loopback UDP/HTTP harness, independent decoders and reference encoder"},
             {"name": "codec", "path": "/verif/engines/codec", "serves_properties": ["C12"], "kind_free_text": "proptest worker + cargo-fuzz target /verif/fuzz/fuzz_targets/c12_text.rs sharing one oracle library"},
         ],
         "checks": checks,
